@@ -9,6 +9,7 @@
 #include <frg/variant.hpp>
 #include <frg/manual_box.hpp>
 #include <frg/tuple.hpp>
+#include <frg/eternal.hpp>
 #include <tuple>
 #include <optional>
 #include <variant>
@@ -84,6 +85,7 @@ struct OptHarness : HarnessBase {
 				if((void *)p < (void *)&x || (void *)p >= (void *)(&x + 1)) throw Violation{"C17", N + ":address", "operator* designates an object outside the holder"};
 				if(val(*p) != ref[a].v) throw Violation{"C17", N + ":value", "held value " + std::to_string(val(*p)) + " differs from the reference " + std::to_string(ref[a].v)};
 				if(x.operator->() != p || &x.value() != p || &cx.value() != p || &*cx != p) throw Violation{"C17", N + ":accessors", "accessors designate different objects"};
+				{ E &&rr = std::move(x).value(); const E &&crr = std::move(cx).value(); if(&rr != p || &crr != p) throw Violation{"C17", N + ":accessors", "value() && designates a different object"}; }
 				if constexpr(std::is_same_v<E, int>) {
 					if(!(x == ref[a].v) || (x != ref[a].v) || !(ref[a].v == x) || (x == ref[a].v + 1) || !(x < ref[a].v + 1) || (x < ref[a].v)) throw Violation{"C17", N + ":compare", "comparison operators disagree with the held value"};
 				}
@@ -236,6 +238,7 @@ struct VarHarness : HarnessBase {
 			if(bool(x) != (ref[a].tag >= 0)) throw Violation{"C17", "variant:engaged", "engaged state differs from the reference"};
 			size_t want = ref[a].tag < 0 ? V::invalid_tag : (size_t)ref[a].tag;
 			if(x.tag() != want) throw Violation{"C17", "variant:tag", "tag() differs from the reference"};
+			static_assert(V::template tag_of<A0>() == 0 && V::template tag_of<A1>() == 1 && V::template tag_of<A2>() == 2);
 			if(x.template is<A0>() != (ref[a].tag == 0) || x.template is<A1>() != (ref[a].tag == 1) || x.template is<A2>() != (ref[a].tag == 2)) throw Violation{"C17", "variant:is", "is<X>() differs from the reference"};
 			int got = 0; void *p = nullptr;
 			if(ref[a].tag == 0) { got = val(x.template get<A0>()); p = &x.template get<A0>(); if(&cx.template get<A0>() != p) throw Violation{"C17", "variant:const-get", "const get designates a different object"}; }
@@ -248,6 +251,8 @@ struct VarHarness : HarnessBase {
 				if((uintptr_t)p % aal) throw Violation{"C17", "variant:alignment", "the held alternative is misaligned inside the variant"};
 				int viaapply = x.apply([](auto &y) -> int { return val(y); });
 				if(viaapply != ref[a].v) throw Violation{"C17", "variant:apply", "apply() visited the wrong alternative"};
+				int viaconst = cx.const_apply([](const auto &y) -> int { return val(y); });
+				if(viaconst != ref[a].v) throw Violation{"C17", "variant:const_apply", "const_apply() visited the wrong alternative"};
 			}
 		}
 		if(res) res->outcomes.insert("tags=" + std::to_string(ref[0].tag) + "/" + std::to_string(ref[1].tag));
@@ -412,6 +417,70 @@ static InstResult construction_forms() {
 	return r;
 }
 
+// expected<E, void>, the FRG_TRY helper and eternal<T>: small closed state spaces, enumerated completely.
+static frg::expected<Err, int> try_chain(frg::expected<Err, Tracked> in, frg::expected<Err> gate) {
+	FRG_TRY(gate);
+	Tracked t = FRG_TRY(std::move(in));
+	return val(t) + 1;
+}
+static InstResult small_holders() {
+	InstResult r; r.name = "expected-void-try-eternal"; r.complete = true;
+	auto bad = [&](const std::string &sig, const std::string &msg) { r.add_violation({"C17", sig, msg}, sig); };
+	auto tick = [&] { r.evaluations++; r.distinct++; };
+	world_reset();
+	// expected<E, void>: every state x every accessor
+	for(int st = 0; st < 4; st++) {
+		tick();
+		frg::expected<Err> e = st == 0 ? frg::expected<Err>() : st == 1 ? frg::expected<Err>(frg::success) : frg::expected<Err>(st == 2 ? Err::a : Err::b);
+		int want = st < 2 ? 0 : st - 1;
+		if(bool(e) != (want == 0)) bad("expected<E,void>:bool", "operator bool disagrees with the constructed state");
+		if(int(e.maybe_error()) != want) bad("expected<E,void>:maybe_error", "maybe_error() differs from the constructed state");
+		if(want) { if(int(e.error()) != want) bad("expected<E,void>:error", "error() differs"); }
+		else e.unwrap();
+		auto m = e.map_error([](Err x) { return Err2(int(x) + 100); });
+		if(want) { if(m || int(m.error()) != want + 100) bad("expected<E,void>:map_error", "map_error() did not map the error"); }
+		else if(!m) bad("expected<E,void>:map_error", "map_error() turned success into an error");
+		frg::expected<Err> c = e, d; d = e;
+		if(int(c.maybe_error()) != want || int(d.maybe_error()) != want) bad("expected<E,void>:copy", "copy / assignment changed the state");
+		// the accessors that assert must assert exactly in the other state
+		bool p1 = false, p2 = false;
+		try { (void)e.error(); } catch(const Panic &) { p1 = true; }
+		try { e.unwrap(); } catch(const Panic &) { p2 = true; }
+		if(p1 != (want == 0) || p2 != (want != 0)) bad("expected<E,void>:assertions", "error()/unwrap() assert in the wrong state");
+	}
+	// FRG_TRY: every combination of gate and input
+	for(int gate = 0; gate < 3; gate++) for(int in = 0; in < 4; in++) {
+		tick();
+		frg::expected<Err> g = gate ? frg::expected<Err>(gate == 1 ? Err::a : Err::b) : frg::expected<Err>();
+		auto res = in < 2 ? try_chain(frg::expected<Err, Tracked>(Tracked(in * 5 + 3)), g) : try_chain(frg::expected<Err, Tracked>(in == 2 ? Err::a : Err::b), g);
+		int want_err = gate ? gate : in < 2 ? 0 : in - 1;
+		if(int(res.maybe_error()) != want_err) bad("FRG_TRY:error", "FRG_TRY propagated error " + std::to_string(int(res.maybe_error())) + ", expected " + std::to_string(want_err));
+		if(!want_err && res.value() != in * 5 + 4) bad("FRG_TRY:value", "FRG_TRY yielded the wrong value");
+	}
+	try { raise_pending(); world_check_empty("FRG_TRY"); } catch(const Violation &v) { r.add_violation(v, "FRG_TRY"); }
+	// eternal<T>: constructs from forwarded arguments, the three accessors designate one object, and the destructor of
+	// eternal never destroys it
+	for(int v = 0; v < 3; v++) {
+		tick();
+		uint64_t d0 = life().destructions;
+		Tracked *obj = nullptr;
+		{
+			frg::eternal<Tracked> e(v + 40);
+			obj = &e.get();
+			if(&*e != obj || e.operator->() != obj) bad("eternal:identity", "get(), operator* and operator-> designate different objects");
+			if(val(*obj) != v + 40) bad("eternal:value", "eternal did not construct the object from its arguments");
+			static_assert(std::is_trivially_destructible_v<frg::eternal<Tracked>>);
+		}
+		if(life().destructions != d0) bad("eternal:destroyed", "the object inside eternal<T> was destroyed");
+		if(!life().live.count(obj)) bad("eternal:destroyed", "the object inside eternal<T> is no longer alive after eternal went out of scope");
+		else obj->~Tracked();   // balance the registry
+	}
+	try { raise_pending(); world_check_empty("eternal"); } catch(const Violation &v) { r.add_violation(v, "eternal"); }
+	r.samples.push_back("expected<E,void>: 4 states x bool/maybe_error/error/unwrap/map_error/copy/assign + asserting accessors; FRG_TRY: 3 gates x 4 inputs; eternal<Tracked>: identity of accessors, object survives the holder");
+	r.states = r.distinct; r.transitions = r.evaluations;
+	return r;
+}
+
 static std::vector<Instance> instances(const std::string &) {
 	std::vector<Instance> v;
 	v.push_back(bfs_instance<OptHarness<int, true, true>>("optional-int", BfsOptions{}, "optional<int>"));
@@ -431,6 +500,10 @@ static std::vector<Instance> instances(const std::string &) {
 	c.run = [](const std::vector<CrashInfo> &) { return construction_forms(); };
 	c.replay = [](const std::string &) { InstResult r = construction_forms(); for(auto &v : r.violations) printf("REPLAY-VIOLATION property=%s sig=%s: %s\n", v.prop.c_str(), v.sig.c_str(), v.msg.c_str()); return (int)r.violations.size(); };
 	v.push_back(c);
+	Instance h; h.name = "expected-void-try-eternal";
+	h.run = [](const std::vector<CrashInfo> &) { return small_holders(); };
+	h.replay = [](const std::string &) { InstResult r = small_holders(); for(auto &v : r.violations) printf("REPLAY-VIOLATION property=%s sig=%s: %s\n", v.prop.c_str(), v.sig.c_str(), v.msg.c_str()); return (int)r.violations.size(); };
+	v.push_back(h);
 	return v;
 }
 int main(int argc, char **argv) { return harness_main(argc, argv, instances); }
